@@ -9,10 +9,21 @@ def structural_positions(case):
     one = dict(case, ops=[['pop', N]])
     tr = QC.run_case(one)
     pos = set()
-    for (key, k, dur, _) in tr.added:
+    for (key, k, dur, *_) in tr.added:
         pos.update((k, k + tr.lens[key]))
     pos = sorted(p for p in pos if 0 < p < N)
     return pos
+
+
+def merged_ops(ops):
+    """The same history with adjacent requests merged into one (the reference chunking)."""
+    out = []
+    for op in ops:
+        if out and op[0] in ('pop', 'popnd') and out[-1][0] == op[0]:
+            out[-1] = [op[0], out[-1][1] + op[1]]
+        else:
+            out.append(list(op))
+    return out
 
 
 def chunks_at(N, cuts):
@@ -30,7 +41,8 @@ class C02(Spec):
         'modelled, not verified: ndarray slicing/np.concatenate/np.zeros semantics in pop_buffer; the generator '
         'protocol (reset/next/n_samples_remaining/is_complete) of stim factories is modelled as "a waveform of '
         'n_samples() samples consumed front to back" (chunk invariance of the factories themselves is C01)',
-        'zero-length waveforms are outside the model (driver refuses them); pop_buffer(decrement=False) is not modelled',
+        'zero-length waveforms are outside the model (driver refuses them); pop_buffer(decrement=False) is modelled '
+        '(popBufferND) for the correspondence only, no theorem covers it',
         'the model follows queue.py with notes/C03_fix_1.diff and notes/C04_fix_*.diff applied',
     ]
     ASSUMPTIONS = ['every stimulus has at least one sample', 'delays are >= 0 (negative: ValueError, checked)',
@@ -38,6 +50,12 @@ class C02(Spec):
     RULE = ('histories of pop_buffer sizes over every policy, fs in the RZ6/integer list, start offsets on and off '
             'the grid, array / FixedWaveform / Cos2Envelope(Tone) sources; boundary stream: request boundaries at '
             'every waveform start/end and delay end, -1/0/+1; each case is also compared with its one-chunk run. '
+            'Half of the random cases are re-spelled by the caller (constructor routes incl. set_fs / registry / positional, '
+            'extend() with broadcast scalars and tuple/ndarray containers, NumPy-typed fs/t0/n/trials, delays as None / '
+            'scalar / generator / finite list / ndarray, metadata, explicit duration=, float32/int/strided source arrays, '
+            'a clone() of the loaded queue, a bystander queue fed with the same source objects, a caller that overwrites '
+            'every array it passed in or got back); plus requests with decrement=False, stimuli appended while running, '
+            'waveforms >= 2^16 samples fetched in 1..65536-sample requests, start offsets beyond 2^31 samples. '
             'Non-trivial = at least two trials notified and at least two requests.')
     SEARCH_SECONDS = {'quick': 20, 'thorough': 240}
 
@@ -54,6 +72,56 @@ class C02(Spec):
             c['ops'] = [['pop', n] for n in rng.chunks(N, max_parts=rng.choice([2, 3, 8, 40]))]
             if it % 4 == 0:
                 c['via'] = 'tick'
+            if it % 2:
+                for st in c['stims']:
+                    if rng.random() < 0.2:
+                        st['xdur'] = rng.choice([-1, 1, 3, 25])       # append(..., duration=) other than the waveform's
+                QC.spell(rng, c, finite_delays=True, p=1.0)
+            yield c
+        # requests with decrement=False (trial counters untouched: the policy keeps cycling), alone and mixed with
+        # ordinary requests
+        for it in range(40 if tier == 'quick' else 700):
+            nst = rng.randint(1, 4)
+            c = {'kind': 'no-decrement', 'fs': rng.choice(QC.FS_LIST), 't0': rng.choice([0, 0.5, 1.2345])}
+            c.update(QC.policy_fields(rng.choice(QC.POLICIES), rng, nst))
+            c['stims'] = QC.rand_stims(rng, nst)
+            need = sum((s['len'] + 8) * (s['trials'] + 1) for s in c['stims'])
+            N = rng.choice([need + 5, max(3, need // 2)])
+            mixed = it % 3 == 0
+            c['ops'] = [['popnd' if (not mixed or rng.random() < 0.5) else 'pop', n]
+                        for n in rng.chunks(N, max_parts=rng.choice([2, 3, 8]))]
+            if it % 2:
+                QC.spell(rng, c, p=1.0)
+            yield c
+        # a stimulus appended while the queue is running (before the earlier ones can have finished)
+        for it in range(30 if tier == 'quick' else 500):
+            nst = rng.randint(2, 4)
+            c = {'kind': 'late-append', 'fs': rng.choice(QC.FS_LIST), 't0': rng.choice([0, 0.5])}
+            c.update(QC.policy_fields(rng.choice(QC.POLICIES), rng, nst))
+            c.pop('build', None)
+            c['stims'] = QC.rand_stims(rng, nst)
+            nlate = rng.randint(1, nst - 1)
+            early = c['stims'][:nst - nlate]
+            for st in c['stims'][nst - nlate:]:
+                st['late'] = 1
+            limit = sum(s['len'] * s['trials'] for s in early)       # nothing can have run dry before that
+            need = sum((s['len'] + 8) * (s['trials'] + 1) for s in c['stims'])
+            at = sorted(rng.randint(1, limit) if limit > 1 else 1 for _ in range(nlate))
+            at = [a for a in at if a < limit] or [max(1, limit - 1)]
+            ops, pos = [], 0
+            for j in range(nlate):
+                a = at[min(j, len(at) - 1)]
+                if a > pos:
+                    ops += [['pop', n] for n in rng.chunks(a - pos, max_parts=3)]
+                    pos = a
+                ops.append(['append', nst - nlate + j])
+            ops += [['pop', n] for n in rng.chunks(need + 5, max_parts=rng.choice([1, 3, 8]))]
+            if ops[0][0] != 'pop':
+                continue
+            c['ops'] = ops
+            if it % 2:
+                QC.spell(rng, c, p=1.0)
+                c.pop('build', None)
             yield c
         # large-scale stream: inter-trial delays and requests around 2^16 samples (block sizes of buffered
         # implementations), the same history once in big requests and once in small ones
@@ -77,6 +145,35 @@ class C02(Spec):
                 ops.append(['pop', n])
                 left -= n
             yield dict(c, ops=ops)
+        # long waveforms (>= 2^16 samples) fetched in a mixture of tiny and huge requests; start offsets that put
+        # the sample index beyond 2^31
+        for it in range(2 if tier == 'quick' else 12):
+            L = rng.choice([65536, 65537, 70001, 131072])
+            c = {'kind': 'long-waveform', 'fs': rng.choice(QC.FS_LIST), 't0': rng.choice([0, 30000.5]),
+                 'enc': 1 << 20}
+            c.update(QC.policy_fields(rng.choice(QC.POLICIES), rng, 2))
+            c['stims'] = [{'src': rng.choice(['arr', 'fixed']), 'len': L, 'trials': 1, 'delays': [rng.choice([0, 3])]},
+                          {'src': 'arr', 'len': 3, 'trials': 2, 'delays': [1]}]
+            rng.shuffle(c['stims'])
+            N = L + 40
+            ops, left = [], N
+            while left > 0:
+                n = min(left, rng.choice([1, 2, 7, 65536, 65535, 40000]))
+                ops.append(['pop', n])
+                left -= n
+            c['ops'] = ops
+            QC.spell(rng, c, p=0.5)
+            yield c
+        for it in range(6 if tier == 'quick' else 60):
+            # start offset far out: t0*fs beyond 2^31 (and beyond 2^40) samples
+            nst = rng.randint(1, 3)
+            c = {'kind': 'far-offset', 'fs': rng.choice(QC.FS_LIST),
+                 't0': rng.choice([30000.5, 86400.0, 1234567.25, 2.0 ** 24 + 0.5])}
+            c.update(QC.policy_fields(rng.choice(QC.POLICIES), rng, nst))
+            c['stims'] = QC.rand_stims(rng, nst, max_len=6, max_trials=2)
+            N = sum((s['len'] + 8) * (s['trials'] + 1) for s in c['stims'])
+            c['ops'] = [['pop', n] for n in rng.chunks(N, max_parts=6)]
+            yield c
         # boundary stream: cuts at every structural position -1/0/+1
         nb = 25 if tier == 'quick' else 400
         for it in range(nb):
@@ -125,16 +222,29 @@ class C02(Spec):
         for s in tr.steps:
             if s['status'] != 'ok':
                 return f"{s['op']} raised: {s['status']} (no output for a well-formed queue)"
+        dry = False
+        for s in tr.steps:
+            if s['op'][0] == 'append' and dry:
+                return None     # a stimulus added to a queue that had already run dry: not a history of the property
+            dry = dry or s.get('empty', False)
         N = QC.total_pop(c)
         cells = QC.flat_cells(tr)
         if len(cells) != N:
             return f'{len(cells)} samples returned for {N} requested'
-        last = tr.steps[-1]
-        if last['ts'] != N or not last['ts_exact']:
-            return f"clock get_ts()*fs = {last['ts']} after {N} samples"
-        # chunk invariance against the one-chunk run
-        if len(c['ops']) > 1:
-            one = QC.run_case(dict(c, ops=[['pop', N]]))
+        emitted = 0
+        for s in tr.steps:
+            emitted += s['n_out']
+            if s['ts'] != emitted or not s['ts_exact']:
+                return (f"clock get_ts()*fs = {s['ts']}{'' if s['ts_exact'] else ' (not exactly: get_ts() != n/fs)'} "
+                        f"after {emitted} samples")
+            if s.get('aliased'):
+                return f"{s['op']} changed the buffer returned by an earlier request"
+        if tr.added2 != [a[:2] for a in tr.added]:
+            return f'a second "added" consumer saw {tr.added2[:6]}, the first {[a[:2] for a in tr.added][:6]}'
+        # chunk invariance against the run with all adjacent requests merged into one
+        ref_ops = merged_ops(c['ops'])
+        if len(c['ops']) > len(ref_ops):
+            one = QC.run_case(dict(c, ops=ref_ops))
             if any(s['status'] != 'ok' for s in one.steps):
                 return 'one-chunk run raised'
             if QC.flat_cells(one) != cells:
@@ -148,9 +258,11 @@ class C02(Spec):
         covered = [False] * N
         uses = {}
         prev = None
-        for (key, k, dur, ongrid) in tr.added:
+        for (key, k, dur, ongrid, payload_ok) in tr.added:
             if not ongrid:
                 return f'notified t0 of key {key} is not t0 + {k}/fs'
+            if not payload_ok:
+                return f'notification of the trial of key {key} at sample {k} does not carry the metadata queued with that stimulus'
             L = tr.lens[key]
             for i in range(L):
                 if k + i >= N:
@@ -179,19 +291,27 @@ class C02(Spec):
         if N <= 1:
             return
         for _ in range(30):
-            yield dict(c, ops=[['pop', n] for n in rng.chunks(N, max_parts=6)], via='pop')
+            ops = []
+            for op in merged_ops(c['ops']):
+                if op[0] in ('pop', 'popnd') and op[1] > 1:
+                    ops += [[op[0], n] for n in rng.chunks(op[1], max_parts=6)]
+                else:
+                    ops.append(op)
+            yield dict(c, ops=ops, via='pop')
 
     def shrink_candidates(self, c):
         ops = c['ops']
         # merge adjacent pops
         for i in range(len(ops) - 1):
-            if ops[i][0] == 'pop' and ops[i + 1][0] == 'pop':
-                yield dict(c, ops=ops[:i] + [['pop', ops[i][1] + ops[i + 1][1]]] + ops[i + 2:])
+            if ops[i][0] in ('pop', 'popnd') and ops[i + 1][0] == ops[i][0]:
+                yield dict(c, ops=ops[:i] + [[ops[i][0], ops[i][1] + ops[i + 1][1]]] + ops[i + 2:])
         if len(ops) > 1:
             yield dict(c, ops=ops[:-1])
         for i in range(len(c['stims'])):
             if len(c['stims']) > 1:
-                yield dict(c, stims=c['stims'][:i] + c['stims'][i + 1:])
+                yield QC.drop_stim(c, i)
+        for c2 in QC.unspell_candidates(c):
+            yield c2
         for i, st in enumerate(c['stims']):
             for f, v in (('trials', st['trials'] - 1), ('len', st['len'] - 1)):
                 if v >= 1:
